@@ -394,7 +394,11 @@ def gen_case(rng, nblocks=None, with_data=True, with_funcs=True, nedits=None):
         if rng.random() < 0.1:
             syms.append({"name": "X%d" % i, "at_end": False})
         if kinds[i] == "code":
-            d = {"kind": "code", "insns": gen_code_block(rng, code_labels, externs), "syms": syms}
+            # code must not run off into data or the end of the section: C03 quantifies over
+            # modules whose CFG is consistent with their code
+            falls_off = i + 1 >= nblocks or kinds[i + 1] != "code"
+            term = rng.choice(["jmp", "ret", "ret"]) if falls_off else None
+            d = {"kind": "code", "insns": gen_code_block(rng, code_labels, externs, term), "syms": syms}
             if in_func:
                 d["func"] = func
             if d["insns"][-1][0] in ("ret", "jmp") and rng.random() < 0.7:
@@ -633,6 +637,45 @@ def classify_error(o):
     if err.startswith("UnsupportedAssemblyError") and "cannot be data blocks" in err:
         return "branch-to-moved-label"
     return None
+
+
+_CS = None
+
+
+def decode_insns(dump, isa="X64"):
+    """Instructions of every code block of a dump, found by capstone (independent of
+    gtirb_rewriting): [[block id, [[offset, size, kind], ...]], ...] with kind
+    0 other, 1 jmp, 2 jcc, 3 call, 4 ret, 5 indirect jmp, 6 indirect call."""
+    global _CS
+    import capstone
+
+    if _CS is None:
+        _CS = capstone.Cs(capstone.CS_ARCH_X86, capstone.CS_MODE_64)
+        _CS.detail = True
+    ivs = {i["id"]: i for i in dump["intervals"]}
+    out = []
+    for b in dump["blocks"]:
+        if not b["code"] or b["bi"] is None:
+            continue
+        data = bytes(ivs[b["bi"]]["bytes"][b["off"]:b["off"] + b["size"]])
+        lst = []
+        for ins in _CS.disasm(data, 0):
+            groups = {ins.group_name(g) for g in ins.groups}
+            rel = "branch_relative" in groups
+            if "ret" in groups:
+                k = 4
+            elif "call" in groups:
+                k = 3 if rel else 6
+            elif "jump" in groups:
+                if ins.mnemonic == "jmp":
+                    k = 1 if rel else 5
+                else:
+                    k = 2
+            else:
+                k = 0
+            lst.append([ins.address, ins.size, k])
+        out.append([b["id"], lst])
+    return out
 
 
 def nop_bytes(case):
